@@ -82,7 +82,7 @@ def generate(rng, tier):
             "call_mode": rng.choice([None, None, "image"]), "sched": draw_schedule_config(rng, maxT=8),
             "knob": rng.choice([None, None, None, 1024, 16384]), "render": rng.random() < 0.012,
             # an earlier (unjudged) map of another window made with the same Layer and direction objects
-            "prior": rng.random() < 0.12}
+            "prior": rng.random() < 0.12, "later": rng.random() < 0.12}
 
 
 def describe(case):
@@ -523,6 +523,21 @@ def execute(case, stats):
     if bad is not None:
         V("basis", bad, {"n": nuv[0].tolist(), "u": nuv[1].tolist(), "v": nuv[2].tolist()})
         return res
+    if case.get("later"):
+        # the caller keeps the returned Plot and makes another map of the same shape (same layers and resolution, another
+        # origin) before looking at it: a result handed out must not change afterwards
+        m_ = case["mesh"]
+        v_ = dict(case["view"])
+        v_["origin"] = [o + 0.11 * m_["scale"] for o in v_["origin"]] if v_["origin"] is not None else [0.41 * m_["scale"]] * 3
+        if v_["origin"] is not None and case["view"]["origin"] is None:
+            v_["origin_unit"] = m_["unit"]
+        try:
+            call_map(dict(case, view=v_, knob=None), dg, lambda: Sim(T=1))
+        except HarnessError:
+            raise
+        except Exception:
+            pass
+        stats.inc("probe.plot_judged_after_a_later_map_of_the_same_shape")
     info = judge(case, p1, cells, loc, vals, origin_s, nuv, V, stats, "T=1")
     ks_ = kernel(MODNAME, KATTR)[2]
     if case.get("knob") and ks_ is not None and ks_.knobs:
@@ -575,7 +590,7 @@ def measure(case):
     npix = res * res if isinstance(res, int) else res.get("x", 256) * res.get("y", 256)
     return (m["maxcells"], m["levelmax"], npix, len(case["layers"]), case["sched"]["T"], m["ndim"], int(case["direction"]["kind"] in ("vec", "basis")),
             int(v["origin"] is not None), int(v["dy"] is not None), int(m["holes"] > 0) + int(bool(m.get("hole_box"))),
-            int(m["unit"] != "cm") + int(v["window_unit"] != m["unit"]) + int(v["origin_unit"] != m["unit"]) + int(m["scale"] != 1.0), int(bool(case.get("prior"))), sw)
+            int(m["unit"] != "cm") + int(v["window_unit"] != m["unit"]) + int(v["origin_unit"] != m["unit"]) + int(m["scale"] != 1.0), int(bool(case.get("prior"))) + int(bool(case.get("later"))), sw)
 
 
 def canonical(case, viol):
@@ -593,6 +608,8 @@ def reductions(case, viol):
     m, v = case["mesh"], case["view"]
     if case.get("prior"):
         yield dict(case, prior=False)
+    if case.get("later"):
+        yield dict(case, later=False)
     for mc in (1, 8, 20, m["maxcells"] // 2):
         if mc < m["maxcells"]:
             yield dict(case, mesh=dict(m, maxcells=mc))
